@@ -284,7 +284,7 @@ func modelPass1Chunk(trees []string, pairs [][2]string, outDir string, k int) ([
 	b.WriteString("Definition trees : list sx := [\n")
 	b.WriteString(strings.Join(trees, ";\n"))
 	b.WriteString("\n].\nDefinition R := Eval vm_compute in map (fun t => str_bytes (simplify1 t)) trees.\nPrint R.\n")
-	b.WriteString("Definition FRAG := Eval vm_compute in map (fun t => if in_fragment t && avoids_defects t then 1%N else 0%N) trees.\nPrint FRAG.\n")
+	b.WriteString("Definition FRAG := Eval vm_compute in map (fun t => if in_fragment t && avoids_defects t && model_exact (simp_ast t) then 1%N else 0%N) trees.\nPrint FRAG.\n")
 	b.WriteString("Definition pairs : list (sx * sx) := [\n")
 	for i, pr := range pairs {
 		if i > 0 {
@@ -681,7 +681,7 @@ var (
 	reOctalJoin       = regexp.MustCompile(`\\[0-7]{1,2}(\(\?:[0-7]\)|\[[0-7]\]|\{1\}[0-7]|.\{0\}[0-7])`)
 	reLitAlt          = regexp.MustCompile(`([^|()\[\]\\*+?{}.^$]+)\|([^|()\[\]\\*+?{}.^$]+)`)
 	reEscapedInBraces = regexp.MustCompile(`\{[0-9]+\\,[0-9]*\}`)
-	reUnwrapRepeat    = regexp.MustCompile(`(\[\{\]|\(\?:\{\))[0-9]|\{[0-9]+(\[,\]|\(\?:,\))|\{[0-9]+,?[0-9]*(\[\}\]|\(\?:\}\))|\{[0-9,]*(\[[0-9]\]|\(\?:[0-9]\))|\{[0-9]+,?[0-9]*,?\{[01]\}`)
+	reUnwrapRepeat    = regexp.MustCompile(`(\[\{\]|\(\?:\{\))[0-9]|\{[0-9]+(\[,\]|\(\?:,\))|\{[0-9]+,?[0-9]*(\[\}\]|\(\?:\}\))|\{[0-9,]*(\[[0-9]\]|\(\?:[0-9]\))|\{[0-9,]*\{[01]\}[0-9,]*\}`)
 	reFlagGroup       = regexp.MustCompile(`\(\?[imsU-]+:`)
 	reFlagOnlyQuant   = regexp.MustCompile(`\(\?[imsU-]*\)([*+?]|\{[0-9])`)
 	reDashRange       = regexp.MustCompile(`\[.*(.--|--.|.-.-.).*\]`)
@@ -769,6 +769,69 @@ func classify(pat, rw string, d *diff) string {
 }
 
 // ---------------------------------------------------------------------------------------------
+
+// repMinOpen: minimum of a {n}, {n,}, {n,m} text and whether it has no upper bound
+func repMinOpen(rep string) (int, bool) {
+	body := strings.TrimSuffix(strings.TrimPrefix(rep, "{"), "}")
+	parts := strings.SplitN(body, ",", 2)
+	n, _ := strconv.Atoi(parts[0])
+	return n, len(parts) == 2 && parts[1] == ""
+}
+
+// nullable: the expression can match the empty string (as the model's elaboration sees it)
+func nullable(e syntax.Expr) bool {
+	switch e.Op {
+	case syntax.OpConcat:
+		for _, a := range e.Args {
+			if !nullable(a) {
+				return false
+			}
+		}
+		return true
+	case syntax.OpAlt:
+		for _, a := range e.Args {
+			if nullable(a) {
+				return true
+			}
+		}
+		return false
+	case syntax.OpCaret, syntax.OpDollar, syntax.OpStar, syntax.OpQuestion, syntax.OpFlagOnlyGroup:
+		return true
+	case syntax.OpEscapeChar:
+		switch e.Value {
+		case `\A`, `\z`, `\b`, `\B`:
+			return true
+		}
+		return false
+	case syntax.OpQuote:
+		return len(e.Args) > 0 && e.Args[0].Value == ""
+	case syntax.OpPlus, syntax.OpNonGreedy, syntax.OpCapture, syntax.OpNamedCapture, syntax.OpGroup, syntax.OpGroupWithFlags:
+		return nullable(e.Args[0])
+	case syntax.OpRepeat:
+		n, _ := repMinOpen(e.Args[1].Value)
+		return n == 0 || nullable(e.Args[0])
+	}
+	return false
+}
+
+// loopsConsume: no loop whose body can match the empty string (outside: Go's never-revisit rule decides,
+// which a priority search does not model)
+func loopsConsume(e syntax.Expr) bool {
+	for _, a := range e.Args {
+		if !loopsConsume(a) {
+			return false
+		}
+	}
+	switch e.Op {
+	case syntax.OpStar, syntax.OpPlus:
+		return !nullable(e.Args[0])
+	case syntax.OpRepeat:
+		if _, open := repMinOpen(e.Args[1].Value); open {
+			return !nullable(e.Args[0])
+		}
+	}
+	return true
+}
 
 // `[\,-x]`: Go reads a range, the third-party parser three items
 var reEscapedRangeBound = regexp.MustCompile(`\\[^A-Za-z0-9|*+?.\[\]^$()\\-]-[^\]]`)
@@ -921,7 +984,7 @@ Definition case_ok (k : case) : bool :=
       (* the certificate used with C11_same_meaning_sound: pattern tree vs tree of the final rewrite *)
       && Bool.eqb (match k_tree3 k with Some t3 => same_meaning t t3 | None => false end) (k_cert k)
       (* hypotheses of C11_simplify_sound_partial; where they hold and the certificate can be computed, it agrees *)
-      && Bool.eqb (in_fragment t && avoids_defects t) (k_frag k)
+      && Bool.eqb (in_fragment t && avoids_defects t && model_exact (simp_ast t)) (k_frag k)
   end.
 Definition cases : list case := [
 `
@@ -982,6 +1045,7 @@ Definition case_ok (k : case) : bool :=
   match den_top (k_tree k) with
   | None => false
   | Some (r, n, names) =>
+      loops_ok r &&                                    (* inside the domain where the model claims to be exact *)
       Nat.eqb n (k_ngroups k) && list_eqb String.eqb names (k_names k)
       && forallb (fun sr => oz_eqb (go_vec n (find r (decode_runes (fst sr)))) (snd sr)) (k_runs k)
   end.
@@ -1027,7 +1091,7 @@ Definition cases : list case := [
 	}
 	semBodies := make([][]string, semShards)
 	semIdx := make([][]string, semShards)
-	semRuns, semUnsupported := 0, 0
+	semRuns, semUnsupported, semLoops := 0, 0, 0
 	for i, sp := range sems {
 		re := regexp.MustCompile(sp.p)
 		alpha := append(patternAlphabet(sp.p), specials...)
@@ -1057,6 +1121,10 @@ Definition cases : list case := [
 		}
 		tree, _ := parseTree(qp, sp.p)
 		sup := supportedByModel(sp.p)
+		if re2, err := qp.Parse(sp.p); err == nil && !loopsConsume(re2.Expr) {
+			sup = false
+			semLoops++
+		}
 		if !sup {
 			semUnsupported++
 		}
@@ -1076,6 +1144,7 @@ Definition cases : list case := [
 	meta.Distribution["semantics_patterns"] = len(sems)
 	meta.Distribution["semantics_runs"] = semRuns
 	meta.Distribution["semantics_patterns_outside_model"] = semUnsupported
+	meta.Distribution["semantics_patterns_with_nullable_loop_body"] = semLoops
 
 	// 6. oracle: every proposed rewrite, both sides compiled by Go's regexp
 	orng := common.NewRand(seed, "c11-oracle")
@@ -1198,7 +1267,9 @@ func (g *gen) pick(l []string) string { return l[g.r.Intn(len(l))] }
 var quants = []string{"*", "+", "?", "{0,1}", "{1,}", "{0,}", "{1}", "{0}", "{2}", "{1,2}", "{2,}", "{0,2}", "{3}"}
 var escapes = []string{`\d`, `\w`, `\s`, `\D`, `\W`, `\S`, `\.`, `\+`, `\,`, `\:`, `\/`, `\-`, `\n`, `\t`, `\x41`, `\075`, `\0`, `\b`, `\&`, `\=`, `\<`, `\%`, `\(`, `\]`, `\[`, `\\`, `\$`, `\^`, `\{`, `\A`, `\z`, `\B`}
 var classItems = []string{"a", "b", "c", "x", "-", "]", "^", "[", ":", "+", ",", ".", "{", "}", "0", "1", `\.`, `\-`, `\]`, `\d`, `\s`, `\w`, `\S`, `\n`,
-	"[:space:]", "[:^space:]", "[:word:]", "[:digit:]", "[:alpha:]", "[:^digit:]", "0-9", "a-c", "a-a", "a-b", "+--", ",--", "a-z", "❤", `\:`, `\,`, "|", "*", "?", "$", "(", ")", " "}
+	"[:space:]", "[:^space:]", "[:word:]", "[:digit:]", "[:alpha:]", "[:^digit:]", "0-9", "a-c", "a-a", "a-b", "+--", ",--", "a-z", "❤", `\:`, `\,`, "|", "*", "?", "$", "(", ")", " ",
+	// ranges between multi-byte runes, with different distances between their first bytes
+	"а-я", "а-в", "α-γ", "é-ë", "❤-❥", "一-三", "я", "é"}
 
 func (g *gen) class() string {
 	var b strings.Builder
@@ -1218,7 +1289,7 @@ func (g *gen) class() string {
 }
 
 func (g *gen) atom(d int) string {
-	switch k := g.r.Intn(24); {
+	switch k := g.r.Intn(26); {
 	case k < 8:
 		return g.pick(g.alpha)
 	case k == 8:
@@ -1243,6 +1314,11 @@ func (g *gen) atom(d int) string {
 	case k == 20:
 		a := g.atom(d - 1)
 		return a + a + "*"
+	case k == 22:
+		// a group around one (possibly quantified) atom, itself quantified or not
+		return "(?:" + g.quantified(0) + ")"
+	case k == 23:
+		return "(" + g.quantified(0) + ")"
 	case k == 21 && d > 0:
 		a := "(?:" + g.re(d-1) + ")"
 		return a + a + g.pick([]string{"", "*", a})
